@@ -79,7 +79,7 @@ CurOp(t) == Prog(CurJob(t))[pc[t]]
 \* fault kinds of a send: "coder" (unencodable value: the encoder raises), "notready" (session not in transport state: the noise
 \* layer raises before encrypting), "oversize" (frame >= 2^24: refused), "logger" (a raising layer above the coder)
 FaultAt(j) == CASE j.fault = "coder" -> "coder" [] j.fault = "notready" -> "coder" [] j.fault = "logger" -> "logger"
-                [] j.fault = "oversize" -> (IF SizeCheckedFirst THEN "coder" ELSE "seg") [] OTHER -> "-"
+                [] j.fault \in {"oversize", "oversize_edge"} -> (IF SizeCheckedFirst THEN "coder" ELSE "seg") [] OTHER -> "-"
 \* the raising code runs right after the named lock was acquired; "coder" faults raise BEFORE the counter is taken
 Raises(t) == LET o == CurOp(t) j == CurJob(t) IN
              (o.k = "acq" /\ j.kind = "send" /\ FaultAt(j) = o.l /\ ~(o.l = "seg" /\ \E i \in 1..(pc[t] - 1) : Prog(j)[i] = Acq("seg")))
